@@ -21,6 +21,17 @@ impl Parseable for Size {
             // Default. For Size this is Block
             u64::parse.map(Size::Block),
         ))
+        // The byte size (count times unit) must fit the integer it is computed in
+        .verify(|size: &Size| {
+            let (Size::Byte(n)
+            | Size::Word(n)
+            | Size::Block(n)
+            | Size::KiloByte(n)
+            | Size::MegaByte(n)
+            | Size::GigaByte(n)
+            | Size::TeraByte(n)) = size;
+            n.checked_mul(size.mult()).is_some()
+        })
         .context(label("size"))
         .parse_next(input)
     }
